@@ -15,6 +15,32 @@ NA = {
 PENDING = "check under construction in this session (see DESIGN.md 10 build order)"
 
 CHECKS = {
+    "C06": dict(
+        category="other",
+        text="Exhaustive constant-table verification plus structural wiring rules: all 4x257 table entries and both tail constants, as "
+             "const-evaluated by rustc, satisfy the ziggurat equations (strict monotonicity, F[i]=f(X[i]) to 1e-14, 256 equal layer areas "
+             "= base strip + tail to 1e-8 relative, end points 0 and 1); both call sites pass a consistent (X,F) pair, the matching symmetry "
+             "flag, a pdf that is the family's density over the reals and a tail routine using that family's R; structural rules inside "
+             "`ziggurat`. The table part is complete (finite, exhaustive); the sampled law itself is not decided.",
+        design_ref="DESIGN.md 5/C06",
+        note="Trusted: CPython math.exp/erfc (1e-16) against tolerances 1e-14/1e-8; rustc's const evaluation of the statics. The law of "
+             "StandardNormal/Exp1 (body/wedge/tail frequencies) is NOT decided by this check.",
+        technique="exhaustive arithmetic check of compiler-evaluated statics + call-site constant tracing + polynomial-exponent abstract domain for the pdf",
+        engine="rdx+E1",
+    ),
+    "C15": dict(
+        category="other",
+        text="Structural writer/reader symmetry for every serde-enabled type, from the type-checked program with feature serde: "
+             "Serialize/Deserialize twins both derive-generated; expanded-AST audit shows no serde attribute except matching "
+             "bound(serialize)/bound(deserialize) pairs; field/variant names emitted by the derived writer's MIR == declared fields == "
+             "reader FIELDS/VARIANTS constants == reader identifier visitor; PartialEq derived. With C14 this gives equal value => identical "
+             "sampling. Covers every internal representation variant because each variant type is itself in the checked set.",
+        design_ref="DESIGN.md 5/C15",
+        note="Trusted: serde_derive's generated code for attribute-free types is a faithful inverse pair; rand's own serde impls. Not decided: "
+             "fidelity of a concrete format (JSON cannot carry ±inf/NaN), float text round-trip.",
+        technique="attribute audit on the expanded AST + impl pairing + writer/reader name tables extracted from derived MIR",
+        engine="rdx+E1",
+    ),
     "C14": dict(
         category="proof",
         text="Type-and-effect proof over the resolved monomorphic program: every distribution type is plain data at every depth, "
